@@ -1,7 +1,7 @@
 """C04 - counting-guided stable search."""
 from mirlib import facts, flow, ir, symx
 from mirlib.pat import ANY, ADT, C, CLOS, F, IDX, K, OP, P, TUP, V, match
-from rules import kernel, semantics, shared
+from rules import deps, kernel, semantics, shared
 from rules.kernel import deep_strip, strip, is_call
 
 EXPLANATION = """
@@ -13,7 +13,11 @@ one was inconsistent), S.F-reduct for stability_check and S.F-full for apply_int
 C04.T-cube (the closure applied to each cube assigns BOT to its negative and TOP to its positive literals, rejects exactly the
 cubes that contradict a decided statement or a `will_be` value, and fixes the chosen statement to the searched value),
 S.T-term for the predicates read (is_truth_value, is_true, compare_inf, no_inf_inconsistency), C13.T-order (more_models)
-is attributed to C13, not to C04: exactness does not depend on the branch polarity."""
+is attributed to C13, not to C04: exactness does not depend on the branch polarity.
+Dependency suites (rules/deps.py; each obligation is a necessary condition of this property, reported under its own rule id):
+kernel-build (C07.T-conn, C07.T-ite0, C07.R-ite, S.F-memo ite_cache, S.R-node, S.R-new, S.W-store, C06.W-ctor), kernel-restrict
+(C07.R-restrict, S.F-memo restrict_cache) and translation (C09.A-wire, C09.A-term, C09.F-order, C09.A-name, C01.A-hybrid): an answer
+is computed on diagrams built by these functions, on every back-end. Additionally C13.R-cubes (Bdd::interpretations, whose cubes the search branches on)."""
 NOT_DECIDED = "Correctness of the `will_be` pruning and 'each reported once' for all ADFs and diagram shapes: a property of an unbounded branching search."
 TECHNIQUE = "static analysis: exhaustive-consumption rule over iterator chains, filter-provenance, finite-domain closure tables"
 
@@ -164,3 +168,5 @@ def check(ctx):
         k, seen = semantics.F_restrict_native(ctx, lib, rule, only={"Adf::stability_check", "Adf::apply_interpretation", "Adf::grounded_internal", "Adf::two_val_model_counts_logic"})
         ctx.floor(rule, "native restriction sites", k, 4)
         T_cube(ctx, lib)
+        deps.cubes(ctx, lib)
+        deps.semantics_base(ctx, lib)
